@@ -5,8 +5,11 @@ package c09
 import (
 	"fmt"
 	"math"
+	"sort"
 	"testing"
 
+	"github.com/EliCDavis/polyform/math/geometry"
+	"github.com/EliCDavis/polyform/math/sample"
 	"github.com/EliCDavis/polyform/modeling"
 	"github.com/EliCDavis/polyform/modeling/marching"
 	"github.com/EliCDavis/vector/vector3"
@@ -340,6 +343,263 @@ func runCase(c Case, o *vh.Obs) *vh.Failure {
 	return nil
 }
 
+// ---------------------------------------------------------------- lattice patterns (every cube configuration)
+
+// PatternCase prescribes the inside/outside state of every lattice point directly: a box of
+// NX x NY x NZ lattice points at Base, point (i,j,k) inside iff bit i+NX*(j+NY*k) of Bits is set,
+// everything around it outside. Shapes from distance fields never produce most of the 256 cube
+// configurations (a cell with four mutually non-adjacent corners inside needs two sub-cell
+// features crossing at one cell); prescribing the samples reaches every configuration and every
+// pair of configurations across a shared face.
+type PatternCase struct {
+	NX, NY, NZ int
+	Base       [3]int
+	Bits       []uint64
+	Path       string // "canvas" (AddField + March) | "field" (Field.March)
+}
+
+func (c PatternCase) inside(i, j, k int) bool {
+	if i < 0 || j < 0 || k < 0 || i >= c.NX || j >= c.NY || k >= c.NZ {
+		return false
+	}
+	b := i + c.NX*(j+c.NY*k)
+	return b/64 < len(c.Bits) && c.Bits[b/64]>>(uint(b)%64)&1 == 1
+}
+
+func singleCellPatterns() []PatternCase {
+	var out []PatternCase
+	for mask := 1; mask < 256; mask++ {
+		out = append(out, PatternCase{NX: 2, NY: 2, NZ: 2, Base: [3]int{10, 10, 10}, Bits: []uint64{uint64(mask)}, Path: "canvas"})
+		out = append(out, PatternCase{NX: 2, NY: 2, NZ: 2, Base: [3]int{-3, 4, 98}, Bits: []uint64{uint64(mask)}, Path: "field"})
+	}
+	return out
+}
+
+// cellPairPatterns: every assignment of the 12 lattice points of two cells sharing a face, per axis.
+func cellPairPatterns() []PatternCase {
+	var out []PatternCase
+	for axis := 0; axis < 3; axis++ {
+		n := [3]int{2, 2, 2}
+		n[axis] = 3
+		for mask := 1; mask < 4096; mask++ {
+			out = append(out, PatternCase{NX: n[0], NY: n[1], NZ: n[2], Base: [3]int{5, 6, 7}, Bits: []uint64{uint64(mask)}, Path: "field"})
+		}
+	}
+	return out
+}
+
+func genPattern(t *rapid.T) PatternCase {
+	c := PatternCase{NX: rapid.IntRange(2, 5).Draw(t, "nx"), NY: rapid.IntRange(2, 5).Draw(t, "ny"), NZ: rapid.IntRange(2, 5).Draw(t, "nz"),
+		Path: "field"}
+	if rapid.IntRange(0, 63).Draw(t, "canvas") == 0 { // a canvas case costs seconds (every storage block touched is visited cell by cell)
+		c.Path = "canvas"
+	}
+	for k := range c.Base {
+		c.Base[k] = rapid.SampledFrom([]int{10, 0, -1, 98, 99, -101, 199, 47}).Draw(t, "base")
+	}
+	n := c.NX * c.NY * c.NZ
+	density := rapid.SampledFrom([]int{1, 2, 3, 4, 5, 6, 7}).Draw(t, "density") // eighths of the points inside
+	for w := 0; w*64 < n; w++ {
+		var word uint64
+		for b := 0; b < 64 && w*64+b < n; b++ {
+			if rapid.IntRange(0, 7).Draw(t, "in") < density {
+				word |= 1 << uint(b)
+			}
+		}
+		c.Bits = append(c.Bits, word)
+	}
+	return c
+}
+
+func runPattern(c PatternCase, o *vh.Obs) *vh.Failure {
+	if c.NX < 2 || c.NY < 2 || c.NZ < 2 || c.NX > 8 || c.NY > 8 || c.NZ > 8 || (c.Path != "canvas" && c.Path != "field") {
+		o.Class("out-of-domain")
+		return nil
+	}
+	for _, b := range c.Base {
+		if b < -1000 || b > 1000 {
+			o.Class("out-of-domain")
+			return nil
+		}
+	}
+	ins := func(x, y, z int) bool { return c.inside(x-c.Base[0], y-c.Base[1], z-c.Base[2]) }
+	count := 0
+	for i := 0; i < c.NX; i++ {
+		for j := 0; j < c.NY; j++ {
+			for k := 0; k < c.NZ; k++ {
+				if c.inside(i, j, k) {
+					count++
+				}
+			}
+		}
+	}
+	if count == 0 {
+		o.Class("pattern/empty-skipped") // March on a canvas with nothing below the cutoff panics with a reported error
+		return nil
+	}
+	// cube configurations present (corner numbering of the harness, only used for classification)
+	configs := map[int]bool{}
+	for i := -1; i < c.NX; i++ {
+		for j := -1; j < c.NY; j++ {
+			for k := -1; k < c.NZ; k++ {
+				m := 0
+				for b := 0; b < 8; b++ {
+					if c.inside(i+b&1, j+b>>1&1, k+b>>2&1) {
+						m |= 1 << uint(b)
+					}
+				}
+				if m != 0 && m != 255 {
+					configs[m] = true
+				}
+			}
+		}
+	}
+	ambiguous := false
+	for m := range configs {
+		// a face with exactly its two diagonal corners inside: faces x=0 (bits 0,2,4,6) etc.
+		for _, f := range [][4]int{{0, 2, 6, 4}, {1, 3, 7, 5}, {0, 1, 5, 4}, {2, 3, 7, 6}, {0, 1, 3, 2}, {4, 5, 7, 6}} {
+			a, b, cc, d := m>>uint(f[0])&1, m>>uint(f[1])&1, m>>uint(f[2])&1, m>>uint(f[3])&1
+			if a == cc && b == d && a != b {
+				ambiguous = true
+			}
+		}
+	}
+	o.Class("pattern/path-" + c.Path)
+	o.Class(fmt.Sprintf("pattern/lattice-points-%d0s", c.NX*c.NY*c.NZ/10))
+	if ambiguous {
+		o.Class("pattern/has-face-with-diagonal-corners-inside")
+		o.NonTrivial()
+	}
+	o.Count("cube-configurations-in-case", len(configs))
+
+	// samples: -2 inside, 0 outside (the canvas holds 0 where nothing was added); cutoff -1 puts every
+	// vertex on the midpoint of a cut lattice edge
+	misaligned := false
+	fn := func(p V) float64 {
+		x, y, z := math.Round(p.X()), math.Round(p.Y()), math.Round(p.Z())
+		if x != p.X() || y != p.Y() || z != p.Z() {
+			misaligned = true
+		}
+		if ins(int(x), int(y), int(z)) {
+			return -2
+		}
+		return 0
+	}
+	lo := vector3.New(float64(c.Base[0]-1), float64(c.Base[1]-1), float64(c.Base[2]-1))
+	hi := vector3.New(float64(c.Base[0]+c.NX), float64(c.Base[1]+c.NY), float64(c.Base[2]+c.NZ))
+	field := marching.Field{Domain: geometry.NewAABBFromPoints(lo, hi), Float1Functions: map[string]sample.Vec3ToFloat{modeling.PositionAttribute: fn}}
+	var m modeling.Mesh
+	if kind, val := oracle.Try(func() {
+		if c.Path == "canvas" {
+			canvas := marching.NewMarchingCanvas(1)
+			canvas.AddField(field)
+			m = canvas.March(-1)
+		} else {
+			m = field.March(modeling.PositionAttribute, 1, -1)
+		}
+	}); kind != "" {
+		return vh.Failf("pattern/march-panic-"+kind, "marching the prescribed samples panicked: %v", val)
+	}
+	if misaligned {
+		return vh.Failf("harness/lattice-misaligned", "the field was sampled off the integer lattice at 1 cube per unit")
+	}
+	if err := oracle.WFStatic(m); err != nil {
+		return vh.Failf("pattern/malformed", "marched mesh malformed: %v", err)
+	}
+	idx := m.Indices()
+	pos := m.Float3Attribute(modeling.PositionAttribute)
+	// vertices are merged by position first (Field.March emits one vertex per triangle corner)
+	type key [3]int64 // doubled coordinates
+	ids := map[key]int{}
+	id := make([]int, pos.Len())
+	for v := 0; v < pos.Len(); v++ {
+		p := pos.At(v)
+		k := key{int64(math.Round(2 * p.X())), int64(math.Round(2 * p.Y())), int64(math.Round(2 * p.Z()))}
+		if math.Abs(2*p.X()-float64(k[0]))+math.Abs(2*p.Y()-float64(k[1]))+math.Abs(2*p.Z()-float64(k[2])) > 1e-6 {
+			return vh.Failf("pattern/vertex-off-edge-midpoint", "vertex %d = %v: with samples -2/0 and cutoff -1 every vertex is the midpoint of a lattice edge", v, p)
+		}
+		odd, axis := 0, 0
+		for a := 0; a < 3; a++ {
+			if k[a]%2 != 0 {
+				odd++
+				axis = a
+			}
+		}
+		if odd != 1 {
+			return vh.Failf("pattern/vertex-off-edge-midpoint", "vertex %d = %v is not the midpoint of a lattice edge", v, p)
+		}
+		e0, e1 := k, k
+		e0[axis], e1[axis] = k[axis]-1, k[axis]+1
+		if ins(int(e0[0]/2), int(e0[1]/2), int(e0[2]/2)) == ins(int(e1[0]/2), int(e1[1]/2), int(e1[2]/2)) {
+			return vh.Failf("pattern/vertex-on-uncut-edge", "vertex %d = %v sits on a lattice edge whose two ends are on the same side", v, p)
+		}
+		if _, ok := ids[k]; !ok {
+			ids[k] = len(ids)
+		}
+		id[v] = ids[k]
+	}
+	// every cut lattice edge carries a vertex
+	cut := 0
+	for x := c.Base[0] - 1; x <= c.Base[0]+c.NX; x++ {
+		for y := c.Base[1] - 1; y <= c.Base[1]+c.NY; y++ {
+			for z := c.Base[2] - 1; z <= c.Base[2]+c.NZ; z++ {
+				for _, d := range [3][3]int{{1, 0, 0}, {0, 1, 0}, {0, 0, 1}} {
+					if ins(x, y, z) != ins(x+d[0], y+d[1], z+d[2]) {
+						cut++
+						if _, ok := ids[key{int64(2*x + d[0]), int64(2*y + d[1]), int64(2*z + d[2])}]; !ok {
+							return vh.Failf("pattern/cut-edge-without-vertex", "the lattice edge from (%d,%d,%d) towards %v is cut but no triangle has a vertex on it", x, y, z, d)
+						}
+					}
+				}
+			}
+		}
+	}
+	cnt := map[dedge]int{}
+	vol := 0.0
+	for i := 0; i+2 < idx.Len(); i += 3 {
+		a, b, cc := id[idx.At(i)], id[idx.At(i+1)], id[idx.At(i+2)]
+		if a == b || b == cc || a == cc {
+			return vh.Failf("pattern/degenerate-triangle", "triangle %d joins two corners at one position", i/3)
+		}
+		cnt[dedge{a, b}]++
+		cnt[dedge{b, cc}]++
+		cnt[dedge{cc, a}]++
+		pa, pb, pc := pos.At(idx.At(i)), pos.At(idx.At(i+1)), pos.At(idx.At(i+2))
+		ref := vector3.New(float64(c.Base[0]), float64(c.Base[1]), float64(c.Base[2]))
+		vol += pa.Sub(ref).Dot(pb.Sub(ref).Cross(pc.Sub(ref))) / 6
+	}
+	for i := 0; i+2 < idx.Len(); i += 3 { // deterministic order
+		tri := [3]int{id[idx.At(i)], id[idx.At(i+1)], id[idx.At(i+2)]}
+		for k := 0; k < 3; k++ {
+			e := dedge{tri[k], tri[(k+1)%3]}
+			if n, back := cnt[e], cnt[dedge{e.b, e.a}]; n != back {
+				return vh.Failf("pattern/unbalanced-edge", "edge %v -> %v is used %d times, its opposite %d times: the surface around the prescribed samples is open or inconsistently oriented (cube configurations present: %v)",
+					pos.At(idx.At(i+k)), pos.At(idx.At(i+(k+1)%3)), n, back, sortedKeys(configs))
+			}
+		}
+	}
+	if !(vol > 0) {
+		return vh.Failf("pattern/volume-not-positive", "signed volume %v with %d inside samples: the surface is oriented inward", vol, count)
+	}
+	// each inside sample owns between 1/6 (a lone corner: an octahedron of half-edges) and 1 cell of volume... bounds only
+	if vol < float64(count)/6-1e-9 || vol > float64(count)+float64(cut)/2+1e-9 {
+		return vh.Failf("pattern/volume-out-of-bounds", "signed volume %v for %d inside samples and %d cut edges", vol, count, cut)
+	}
+	return nil
+}
+
+func sortedKeys(m map[int]bool) []int {
+	var out []int
+	for k := range m {
+		out = append(out, k)
+	}
+	sort.Ints(out)
+	return out
+}
+
 func TestC09(t *testing.T) {
 	vh.Drive(t, vh.Spec[Case]{Name: "march", Quick: 96, Thorough: 2400, Gen: genCase, Run: runCase})
+	vh.Enumerate(t, vh.Spec[PatternCase]{Name: "cube-configurations", Run: runPattern}, singleCellPatterns())
+	vh.Enumerate(t, vh.Spec[PatternCase]{Name: "cell-pairs", Run: runPattern}, cellPairPatterns())
+	vh.Drive(t, vh.Spec[PatternCase]{Name: "lattice-patterns", Quick: 4000, Thorough: 200000, Gen: genPattern, Run: runPattern})
 }
